@@ -12,6 +12,7 @@ RULE = ('cases = (sender domain, client address v4/v6, sender, HELO, reverse nam
         'over a small universe of names. Streams: records drawn from the SPF grammar (700, one third mutated bytewise), the same with macros (500), '
         'records with 8..13 DNS querying terms flat / nested by include / chained by redirect / cyclic / include+redirect trees (600), '
         'zones whose records are all inside the strict macro-free RFC 7208 grammar, compared with the reference evaluator Spec/SpfRfc.v (1500), '
+        'ptr with forward-confirmed PTR names around the label boundary of the target: xT, mail.notT, T.evil.test, equal length, shorter, sub.T (300), '
         'random macro strings in domain-specs, modifiers and explanation texts (900), arbitrary bytes in bad tokens and explanation texts (500), plus the corpus '
         '(replays of F-C11-1..9 and boundary cases). non-trivial = the implementation made at least two resolver calls; distinct by case text')
 TRUSTED_BASE = [
@@ -52,6 +53,8 @@ def gen_cases(engine, rng, tier):
         out.append(G.gen_sanitise_case(rng))
     for i in range(1500 * k):
         out.append(G.gen_rfc_case(rng))
+    for i in range(300 * k):
+        out.append(G.gen_ptr_case(rng))
     return out
 
 # ---- known deviations from RFC 7208 (results differ from Spec/SpfRfc.v); each predicate looks at the zone of the case only
